@@ -134,6 +134,21 @@ def bounded(ctx):
                         probe(label, cls, s[:j] + ch + s[j + 1:])
                         distinct.add((label, j, ch))
             probe(label, cls, s[: len(s) // 2])
+            # degenerate instances: the two overhang groups spell the same word (an entity assemble() would refuse, or one
+            # that closes on itself), the target is as short as the structure allows, the overhangs are palindromes
+            try:
+                inst_, spans_ = gen.instance(cls.structure(), rng, run=rng.randint(2, 6), avoid=(be.enzyme_geometry(cls.cutter)[0], gen.rc(be.enzyme_geometry(cls.cutter)[0])))
+                if 1 in spans_ and 3 in spans_ and spans_[1][1] - spans_[1][0] == spans_[3][1] - spans_[3][0]:
+                    w1_ = inst_[spans_[1][0]:spans_[1][1]]
+                    same_ = inst_[:spans_[3][0]] + w1_ + inst_[spans_[3][1]:]
+                    half_ = w1_[: len(w1_) // 2]
+                    pal_ = (half_ + gen.rc(half_)) if len(w1_) % 2 == 0 else w1_
+                    pal2_ = inst_[:spans_[1][0]] + pal_ + inst_[spans_[1][1]:spans_[3][0]] + pal_ + inst_[spans_[3][1]:]
+                    for d_ in (same_, same_.lower(), same_[5:] + same_[:5], pal2_):
+                        probe(label, cls, d_)
+                        distinct.add((label, "degenerate", d_[:6]))
+            except Exception:
+                pass
             # near-misses with a further recognition site of the class's cutter inside the matched region (either strand),
             # in upper, lower and mixed spelling, at the rotation given and with the origin inside the extra site
             site, a_, k_ = be.enzyme_geometry(cls.cutter)
